@@ -7,7 +7,7 @@ for l in open('/verif/seeded/MATRIX.txt'):
     if len(p) >= 3:
         mat.setdefault(p[0], []).append((p[1], p[2], ' '.join(p[3:])))
 out = ["<!-- SEC10-BEGIN -->\n## 10. Seeded changes (from fresh sub-agents) and which checks catch them\n\n"]
-out.append('''Seven rounds of fresh sub-agents (rounds 4 to 7 with requests for changes that need long windows, long streams,
+out.append('''Eight rounds of fresh sub-agents (rounds 4 to 8 with requests for changes that need long windows, long streams,
 rare secondary parameters, tiny or huge units, a narrowed counter, f32 only, chains only, clones of clones, never-delivered inner views) were each given only the JSON record of one property and a scratch
 git worktree of /repo (nothing from /verif), and asked for a change that breaks the property while
 compiling and passing the 43 baseline tests, with a demonstration. Every change below was confirmed in a
@@ -76,6 +76,12 @@ What the misses taught:
   WelfordOnline, HLNormalizer, CTI, NET, Roc 0; Ema the value and CyberCycle 0 after 12 N values), which surfaced finding #27;
   C09f (EFT holds its previous output on a flat window) - C09's fading-memory clause always merged the two streams into a *noisy*
   tail; a constant-tail variant was added (signature `fading_flat_tail`), which surfaced finding #26.
+* Round 8 (16 changes, each in a view / property combination not used before; 14 caught at once). The two others:
+  C10g (RoofingFilter flushes its high-pass state to 0 below machine epsilon) - C10's f64 leg multiplies both coefficients by 2^-60,
+  2^-200 or 2^100 in one case out of three, and its tolerance lost the absolute floor (`+ max|x,y| + 1`) that made small
+  coefficients vacuous: it is now 1e-9 (|a| (max|out_x| + max|x|) + |b| (max|out_y| + max|y|));
+  C16g (CenterOfGravity keeps running sums: on a window of zeros after volatile values it divides residue by residue) - one flat
+  tail in eight of C16's flat clause is now flat at exactly 0 (inside the envelope, which bounds non-zero magnitudes only).
 * C07b (WelfordOnline's flat-window reset keeps the residue of `mean`) is **not caught**: it needs a spike ~1e16 times the later level,
   and what it then breaks - Vsct's sharp bound, numerically (exact arithmetic unaffected) - is inside the listed finding
   `C07/range/Vsct/f*|range|exact_ok`; inside C16's three-decade envelope its effect (1e-10 of the range) is below the 1e-6 tolerance.
